@@ -1,9 +1,177 @@
 import CoolerModel.Model.Balance
 import CoolerModel.Props.C10IC
+import Mathlib.Algebra.BigOperators.Group.List.Basic
+import Mathlib.Algebra.Order.BigOperators.Group.List
+import Mathlib.Algebra.Order.Field.Rat
+import Mathlib.Tactic.NormNum
+import Mathlib.Tactic.Linarith
 /-!
 # C10 — balancing weights flatten the marginals of the filtered matrix (model-level theorems)
+
+Statements about the executable definitions of `Model/Balance.lean` (namespace `Cooler.IC`), which the
+correspondence harness runs against `cooler.balance_cooler`.  The analytic core (`final_step_bound`,
+`variance_gives_delta`, `converged_rowsums_bound`, `cis_bound`, `trans_bound_partial`, `diag_partial`)
+is in `Props/C10IC.lean`.
 -/
 namespace Cooler.C10
 open Cooler Cooler.IC
+
+/-! ## `_marginalize` versus the row sums of the symmetric matrix -/
+
+section marginal
+variable {α : Type} [AddCommMonoid α]
+
+/-- contribution of one pixel to entry `(a, b)` of the symmetric matrix -/
+def contrib (p : WPx α) (a b : Nat) : α :=
+  if (p.i = a ∧ p.j = b) ∨ (p.i = b ∧ p.j = a) then p.w else 0
+
+theorem sum_range_ite (n c : Nat) (w : α) :
+    ((List.range n).map (fun b => if b = c then w else 0)).sum = if c < n then w else 0 := by
+  induction n with
+  | zero => simp
+  | succ n ih =>
+    rw [List.range_succ, List.map_append, List.sum_append, ih]
+    simp only [List.map_cons, List.map_nil, List.sum_cons, List.sum_nil, add_zero]
+    by_cases h1 : c < n
+    · have : n ≠ c := by omega
+      simp [h1, this, show c < n + 1 by omega]
+    · by_cases h2 : n = c
+      · subst h2; simp
+      · have : ¬ c < n + 1 := by omega
+        simp [h1, h2, this]
+
+theorem symmAt_cons (p : WPx α) (l : List (WPx α)) (a b : Nat) :
+    symmAt (p :: l) a b = contrib p a b + symmAt l a b := by
+  simp [symmAt, contrib]
+
+theorem rowsumAt_cons (n : Nat) (p : WPx α) (l : List (WPx α)) (a : Nat) :
+    rowsumAt n (p :: l) a = ((List.range n).map (contrib p a)).sum + rowsumAt n l a := by
+  unfold rowsumAt
+  rw [← List.sum_map_add]
+  apply congrArg
+  apply List.map_congr_left
+  intro b _
+  exact symmAt_cons p l a b
+
+theorem marginalizeAt_cons (p : WPx α) (l : List (WPx α)) (a : Nat) :
+    marginalizeAt (p :: l) a
+      = ((if p.i = a then p.w else 0) + (if p.j = a then p.w else 0)) + marginalizeAt l a := by
+  simp only [marginalizeAt, bincountAt, List.map_cons, List.sum_cons]
+  exact add_add_add_comm _ _ _ _
+
+/-- the whole row of one pixel's contributions -/
+theorem sum_contrib (n : Nat) (p : WPx α) (hi : p.i < n) (hj : p.j < n) (a : Nat) :
+    ((List.range n).map (contrib p a)).sum
+      = if p.i = a then p.w else if p.j = a then p.w else 0 := by
+  by_cases h1 : p.i = a
+  · have hf : contrib p a = fun b => if b = p.j then p.w else 0 := by
+      funext b; unfold contrib
+      by_cases hb : b = p.j
+      · subst hb; simp [h1]
+      · have : ¬ ((p.i = a ∧ p.j = b) ∨ (p.i = b ∧ p.j = a)) := by
+          rintro (⟨_, h⟩ | ⟨h, h'⟩)
+          · exact hb h.symm
+          · exact hb (by omega)
+        simp [this, hb]
+    rw [hf, sum_range_ite, if_pos hj, if_pos h1]
+  · by_cases h2 : p.j = a
+    · have hf : contrib p a = fun b => if b = p.i then p.w else 0 := by
+        funext b; unfold contrib
+        by_cases hb : b = p.i
+        · subst hb; simp [h2]
+        · have : ¬ ((p.i = a ∧ p.j = b) ∨ (p.i = b ∧ p.j = a)) := by
+            rintro (⟨h, _⟩ | ⟨h, _⟩)
+            · exact h1 h
+            · exact hb h.symm
+          simp [this, hb]
+      rw [hf, sum_range_ite, if_pos hi, if_neg h1, if_pos h2]
+    · have hf : contrib p a = fun _ => 0 := by
+        funext b; unfold contrib
+        have : ¬ ((p.i = a ∧ p.j = b) ∨ (p.i = b ∧ p.j = a)) := by
+          rintro (⟨h, _⟩ | ⟨_, h⟩)
+          · exact h1 h
+          · exact h2 h
+        simp [this]
+      rw [hf, if_neg h1, if_neg h2]
+      simp
+
+/-- **What `_marginalize` computes** (formal content of finding D17): the row sum of the symmetric
+matrix **plus the diagonal entry once more** — `bincount(bin1) + bincount(bin2)` sees a diagonal pixel
+in both index columns.  For every list of pixels with bin ids below `n`, over any commutative monoid. -/
+theorem marginalize_diag_double (n : Nat) (l : List (WPx α)) (hl : ∀ p ∈ l, p.i < n ∧ p.j < n) (a : Nat) :
+    marginalizeAt l a = rowsumAt n l a + symmAt l a a := by
+  induction l with
+  | nil =>
+    have : (List.map (symmAt ([] : List (WPx α)) a) (List.range n)).sum = 0 :=
+      List.sum_eq_zero (fun x hx => by
+        obtain ⟨b, _, rfl⟩ := List.mem_map.mp hx
+        simp [symmAt])
+    simp [marginalizeAt, bincountAt, rowsumAt, this, symmAt]
+  | cons p l ih =>
+    have hp := hl p List.mem_cons_self
+    have ih' := ih (fun q hq => hl q (List.mem_cons_of_mem p hq))
+    rw [marginalizeAt_cons, rowsumAt_cons, symmAt_cons, ih', sum_contrib n p hp.1 hp.2 a]
+    have hc : contrib p a a = if p.i = a ∧ p.j = a then p.w else 0 := by
+      unfold contrib; simp
+    rw [hc]
+    by_cases h1 : p.i = a <;> by_cases h2 : p.j = a <;> simp [h1, h2]
+    · exact add_add_add_comm _ _ _ _
+    · exact (add_assoc _ _ _).symm
+    · exact (add_assoc _ _ _).symm
+
+/-- **`_marginalize` = row sums when the main diagonal is empty** (`ignore_diags ≥ 1`, or no diagonal
+data): for every pixel list whose diagonal pixels carry the value 0 (the filters zero, they do not
+delete), `bincount(bin1, w) + bincount(bin2, w)` is the row-sum vector of the symmetric completion. -/
+theorem marginalize_eq_rowsum (n : Nat) (l : List (WPx α)) (hl : ∀ p ∈ l, p.i < n ∧ p.j < n)
+    (hd : ∀ p ∈ l, p.i = p.j → p.w = 0) (a : Nat) :
+    marginalizeAt l a = rowsumAt n l a := by
+  rw [marginalize_diag_double n l hl a]
+  have : symmAt l a a = 0 := by
+    unfold symmAt
+    apply List.sum_eq_zero
+    intro x hx
+    obtain ⟨p, hp, rfl⟩ := List.mem_map.mp hx
+    by_cases h : (p.i = a ∧ p.j = a) ∨ (p.i = a ∧ p.j = a)
+    · rw [if_pos h]
+      have : p.i = p.j := by rcases h with h | h <;> omega
+      exact hd p hp this
+    · rw [if_neg h]
+  rw [this, add_zero]
+
+/-- only the pixels that touch bin `a` matter for its row sum (used by the driver to evaluate row
+sums of larger matrices quickly) -/
+theorem rowsumTouch_eq (n : Nat) (l : List (WPx α)) (hl : ∀ p ∈ l, p.i < n ∧ p.j < n) (a : Nat) :
+    rowsumAt n (l.filter fun p => p.i == a || p.j == a) a = rowsumAt n l a := by
+  induction l with
+  | nil => rfl
+  | cons p l ih =>
+    have hp := hl p List.mem_cons_self
+    have ih' := ih (fun q hq => hl q (List.mem_cons_of_mem p hq))
+    by_cases h : (p.i == a || p.j == a) = true
+    · simp only [List.filter_cons, h, if_true]
+      rw [rowsumAt_cons, rowsumAt_cons, ih']
+    · simp only [List.filter_cons, h, Bool.false_eq_true, if_false]
+      rw [rowsumAt_cons, ih', sum_contrib n p hp.1 hp.2 a]
+      have h1 : ¬ p.i = a := by intro e; apply h; simp [e]
+      have h2 : ¬ p.j = a := by intro e; apply h; simp [e]
+      simp [h1, h2]
+
+end marginal
+
+/-- non-vacuity of `marginalize_eq_rowsum`, and the D17 witness in the integers: the pixels
+`(0,0)=1, (0,1)=1, (0,2)=1, (1,2)=3`.  `_marginalize` gives `4, 4, 4` (flat: variance 0, so balancing
+with `ignore_diags = 0` reports convergence at the first sweep with weights `1/√4`), the row sums are
+`3, 4, 4`. -/
+def witnessD17 : List (WPx Int) := [⟨0, 0, 1⟩, ⟨0, 1, 1⟩, ⟨0, 2, 1⟩, ⟨1, 2, 3⟩]
+
+/-- **Finding D17, machine-checked**: with the main diagonal kept, a flat `_marginalize` vector does
+not mean flat row sums. -/
+theorem diag_rowsums_not_flat :
+    (List.range 3).map (marginalizeAt witnessD17) = [4, 4, 4] ∧
+    (List.range 3).map (rowsumAt 3 witnessD17) = [3, 4, 4] := by
+  decide
+
+example : (List.range 3).map (marginalizeAt (zeroDiags 1 witnessD17))
+    = (List.range 3).map (rowsumAt 3 (zeroDiags 1 witnessD17)) := by decide
 
 end Cooler.C10
